@@ -47,7 +47,7 @@ func (t *Text) UnmarshalJSON(b []byte) error {
 
 // Value is a typed Go value given to Lit / LitRune / LitByte / Commentf.
 type Value struct {
-	T string `json:"t"` // bool string int int8 ... uintptr float32 float64 complex64 complex128 rune byte; also "struct" / "nil" for the documented panics
+	T string `json:"t"` // bool string int int8 ... uintptr float32 float64 complex64 complex128 rune byte; also "struct" "slice" "map" "ptr" "nil" for the documented panic
 	V Text   `json:"v"`
 }
 
@@ -142,6 +142,17 @@ func (v *Value) Go() interface{} {
 		return rune(i(32))
 	case "byte":
 		return byte(u(8))
+	// values Lit is documented to reject (it panics when rendered)
+	case "struct":
+		return struct{ A int }{1}
+	case "slice":
+		return []int{1}
+	case "map":
+		return map[string]int{"a": 1}
+	case "ptr":
+		return new(int)
+	case "nil":
+		return nil
 	}
 	panic("recipe.Value.Go: unknown type " + v.T)
 }
